@@ -23,10 +23,20 @@ Round-3 family extensions (EXTENDING.md): additional tasks, labelled
   feed    the observation as scalar / list / 1-D / 2-D array / Series / one-cell DataFrame,
           float32-, int64-, int32-, uint8-typed, mixed int/float;
   long    default parameters, L = 160, k <= 1 (the default burn-in of 30 is passed, several epochs).
+  scale   the measurement unit of the stream, for both detectors (CUSUM tests standardised observations, so its
+          decisions do not depend on the unit; Page-Hinkley is homogeneous in (x, delta)):
+          val-nano   scale 1e-9, non-dyadic, mixed-sign and all-negative; estimated, re-estimated and given statistics;
+          val-p2m30  scale 2^-30 ~ 9.3e-10: float arithmetic is exact, ties are enforced at that scale;
+          val-big8   scale 1e8 non-dyadic;   val-p2p27  scale 2^27 ~ 1.3e8 in exact arithmetic;
+          val-lvl8   level 1e8 with unit spread (non-dyadic);
+          long-scale the L = 160 default-parameter histories measured in units of 1e-9 and 1e8 (Page-Hinkley's delta,
+                     an amplitude in the unit of the data, scaled along), k <= 1.
 Their tolerances scale with the conditioning of the data (``_tol``).
 """
 import itertools
 import math
+
+from fractions import Fraction
 
 import numpy as np
 import pandas as pd
@@ -58,7 +68,20 @@ ALPHABETS = {
     "dy32": [-2.25, 0.5, 1.0, 4.75],  # dyadic, exactly representable in float32
     "imix": [-2, 0, 1.5, 4],  # integral values arrive int-typed, the fractional one as a float
     "u8": [98, 100, 101, 104],  # representable in uint8
+    # ---- scale families: the same four roles at very small / very large measurement units ----
+    "nano": [-2e-09, 5e-10, 1e-09, 4e-09],  # scale 1e-9 (a sensor reporting in nano-units), non-dyadic
+    "nneg": [-7.3e-09, -5.1e-09, -4.2e-09, -1.1e-09],  # scale 1e-9, negative all the way
+    "p2m30": [-2 * 2.0 ** -30, 0.0, 2.0 ** -30, 4 * 2.0 ** -30],  # scale 2^-30 ~ 9.3e-10: float arithmetic stays exact
+    "big8": [-230000000.7, 17000000.3, 110000000.9, 430000000.1],  # scale 1e8, non-dyadic
+    "p2p27": [-2 * 2 ** 27, 0, 2 ** 27, 4 * 2 ** 27],  # scale 2^27 ~ 1.3e8, integral (fits int32): exact arithmetic
+    "lvl8": [99999997.9, 100000000.1, 100000000.9, 100000004.3],  # level 1e8, spread ~1, non-dyadic
 }
+# long default histories in other measurement units (events are the scaled numbers)
+SCALES = {"1e-9": 1e-09, "1e8": 1e08}
+for _k, _u in SCALES.items():
+    ALPHABETS["base@" + _k] = [v * _u for v in ALPHABET]
+# power-of-two scale families: log2 of the unit (the Fraction model then knows the dyadic grid of the windows)
+UNIT_LOG2 = {"p2m30": -30, "p2p27": 27}
 EPS64 = 2.0 ** -52
 EPS32 = 2.0 ** -23
 FEEDS = {
@@ -205,6 +228,8 @@ class CusumSystem(System):
             model.floor_x = cfg["tol"]["floor_x"]
         if cfg.get("fam"):
             model.bits = 24 if cfg.get("feed") == "f32" else 53
+        if cfg.get("unit_log2"):
+            model.unit = Fraction(2) ** cfg["unit_log2"]
         return {"det": CUSUM(**p), "model": model}
 
     def alphabet(self, cfg, state, pos):
@@ -732,7 +757,8 @@ X_DFS = [
     ("CUSUM", "feed-int", E2, "base", "int", 6, 7),
     ("CUSUM", "feed-int", E3, "u8", "u8", 6, 7),  # uint8-typed with estimated statistics (numpy's mean/std are float64)
     ("CUSUM", "feed-auto", E1, "imix", "auto", 6, 7),
-    # uint8-typed with an integer target: x - target is evaluated in uint8 (a genuine defect is expected here)
+    # uint8-typed with an integer target: x - target must not be evaluated in uint8 (defect found by this family,
+    # repaired in the library since: the statistics are computed in double precision)
     ("CUSUM", "feed-narrow", _C(0, 0, 3, None, 100, 1), "u8", "u8", 4, 5),
     # ---- Page-Hinkley, value families (both directions) ----
     ("PageHinkley", "val-neg", _H("positive", 1, 0, 1), "neg", None, 6, 7),
@@ -765,6 +791,36 @@ X_DFS = [
     ("PageHinkley", "feed-int", _H("negative", 0, 0.5, 2), "base", "int", 5, 6),
     ("PageHinkley", "feed-int", _H("positive", 1, 0, 0.01), "u8", "u8", 5, 6),
     ("PageHinkley", "feed-auto", _H("positive", 1, 0, 1), "imix", "auto", 5, 6),
+    # ================= scale families (very small / very large measurement units) =================
+    # CUSUM is invariant to the unit of the stream (z = (x - target) / sd); with estimated statistics the same
+    # parameters apply at every scale, given statistics are scaled with the data.
+    ("CUSUM", "val-nano", E1, "nano", None, 7, 8), ("CUSUM", "val-nano", E4, "nano", None, 6, 7),
+    ("CUSUM", "val-nano", E3, "nneg", None, 6, 7),
+    ("CUSUM", "val-nano", _C(1, 0.25, 2, None, 1e-09, 1.5e-09), "nano", None, 6, 7),
+    ("CUSUM", "val-nano", _C(0, 0.1, 2.5, "positive", -4.2e-09, 1.7e-09), "nneg", None, 6, 7),
+    ("CUSUM", "val-p2m30", _C(1, 0.5, 2, None, 0, 2.0 ** -30), "p2m30", None, 7, 8),  # exact arithmetic at 2^-30: ties enforced
+    ("CUSUM", "val-p2m30", _C(3, 0, 1, "negative", 2.0 ** -30, 2.0 ** -29), "p2m30", None, 6, 7),
+    ("CUSUM", "val-p2m30", E2, "p2m30", None, 6, 7),
+    ("CUSUM", "val-big8", E2, "big8", None, 7, 8), ("CUSUM", "val-big8", E1, "big8", None, 6, 7),
+    ("CUSUM", "val-big8", _C(1, 0.3, 1.5, None, 17000000.3, 210000000.0), "big8", None, 6, 7),
+    ("CUSUM", "val-p2p27", _C(1, 0.5, 2, None, 0, 2 ** 27), "p2p27", None, 7, 8),  # exact arithmetic at 2^27
+    ("CUSUM", "val-p2p27", _C(3, 0, 1, "positive", 2 ** 27, 2 ** 28), "p2p27", None, 6, 7),
+    ("CUSUM", "val-p2p27", E2, "p2p27", None, 6, 7),
+    ("CUSUM", "val-lvl8", E2, "lvl8", None, 7, 8), ("CUSUM", "val-lvl8", E4, "lvl8", None, 6, 7),
+    ("CUSUM", "val-lvl8", _C(1, 0.3, 1.5, None, 100000000.1, 0.7), "lvl8", None, 6, 7),
+    # Page-Hinkley is homogeneous: scaling the stream and delta by c scales every column by c and keeps the decisions
+    ("PageHinkley", "val-nano", _H("positive", 1, 0, 1), "nano", None, 6, 7),
+    ("PageHinkley", "val-nano", _H("negative", 3, 1e-10, 2), "nano", None, 6, 7),
+    ("PageHinkley", "val-nano", _H("positive", 0, 1e-10, 0.5), "nneg", None, 5, 6),
+    ("PageHinkley", "val-nano", _H("negative", 1, 0, 0), "nano", None, 5, 6),  # threshold 0 at scale 1e-9: both sides ~1e-9
+    ("PageHinkley", "val-p2m30", _H("positive", 1, 0, 1), "p2m30", None, 6, 7),  # exact arithmetic: ties enforced
+    ("PageHinkley", "val-p2m30", _H("negative", 0, 2.0 ** -31, 2), "p2m30", None, 6, 7),
+    ("PageHinkley", "val-big8", _H("positive", 1, 0, 1), "big8", None, 6, 7),
+    ("PageHinkley", "val-big8", _H("negative", 1, 3000000.3, 0.5), "big8", None, 5, 6),
+    ("PageHinkley", "val-p2p27", _H("positive", 1, 2 ** 26, 1), "p2p27", None, 6, 7),
+    ("PageHinkley", "val-p2p27", _H("negative", 0, 0, 2), "p2p27", None, 6, 7),
+    ("PageHinkley", "val-lvl8", _H("positive", 1, 0, 2e-08), "lvl8", None, 6, 7),
+    ("PageHinkley", "val-lvl8", _H("negative", 1, 0.5, 1e-08), "lvl8", None, 5, 6),
 ]
 
 # default parameters, L = 160: CUSUM() = burn_in 30, delta .005, threshold 5, two-sided; PageHinkley() = delta .01,
@@ -779,15 +835,17 @@ FAM_ALARMS = {
     "cusum": [
         "val-neg", "val-frac", "val-mix", "val-lvl6", "val-lvl7", "val-nlvl7", "val-tiny",
         "par-h0", "par-dBig", "par-nd", "feed-cont", "feed-df", "feed-f32", "feed-int", "feed-auto", "long-default",
+        "val-nano", "val-p2m30", "val-big8", "val-p2p27", "val-lvl8", "long-scale",
     ],
     "ph": [
         "val-neg", "val-frac", "val-mix", "val-lvl6", "val-lvl7", "val-nlvl7", "val-tiny",
         "par-h0", "par-hfrac", "par-dBig", "feed-cont", "feed-df", "feed-f32", "feed-int", "feed-auto", "long-default",
+        "val-nano", "val-p2m30", "val-big8", "val-p2p27", "val-lvl8", "long-scale",
     ],
 }
 # burn-in longer than every history: alarms are impossible, that is the point
 FAM_QUIET = {"cusum": ["par-bBig"], "ph": ["par-bBig"]}
-FAM_NARROW = {"cusum": ["feed-narrow"], "ph": []}  # a genuine defect is expected on the pinned tree
+FAM_NARROW = {"cusum": ["feed-narrow"], "ph": []}  # found the (since repaired) narrow-integer wrap-around
 
 
 def _x_cfg(system, fam, params, alpha, feed, L, tag):
@@ -796,6 +854,8 @@ def _x_cfg(system, fam, params, alpha, feed, L, tag):
     cfg = {"id": cid, "params": params, "alphabet": alpha, "fam": fam}
     if feed:
         cfg["feed"] = feed
+    if alpha in UNIT_LOG2:
+        cfg["unit_log2"] = UNIT_LOG2[alpha]
     cfg["tol"] = _tol(alpha, L, feed)
     return cfg
 
@@ -824,16 +884,28 @@ def _x_dfs_tasks(system, fam, params, alpha, feed, depth):
     return out
 
 
-def _x_long_tasks(system):
+def _x_long_tasks(system, scale=None, parts=3):
+    """``scale`` (a key of SCALES): the same history measured in another unit - CUSUM() keeps its default parameters
+    (the test is on standardised observations), Page-Hinkley's delta (an amplitude in the unit of the data) is scaled
+    with the data, its threshold (a multiple of the running mean) and burn-in stay at their defaults."""
     default = LONG_DEFAULTS[system]
-    cfg = {"id": "long-default:%s" % system, "params": {}, "alphabet": "base", "fam": "long-default"}
-    cfg["tol"] = _tol("base", len(default))  # delta .005 / .01 are not dyadic: margins and the noise floor apply
+    symbols = ALPHABET
+    fam, alpha, params = "long-default", "base", {}
+    if scale:
+        u = SCALES[scale]
+        fam, alpha = "long-scale", "base@" + scale
+        default = [v * u for v in default]
+        symbols = ALPHABETS[alpha]
+        if system == "PageHinkley":
+            params = {"delta": 0.01 * u}
+    cfg = {"id": "%s:%s%s" % (fam, system, ("@" + scale) if scale else ""), "params": params, "alphabet": alpha, "fam": fam}
+    cfg["tol"] = _tol(alpha, len(default))  # delta .005 / .01 are not dyadic: margins and the noise floor apply
     L = len(default)
     # one prefix-sharing task per third of the deviation positions (the deviation-free history is part of each)
     out = []
     thirds = [(0, 54), (54, 107), (107, L)]
-    for a, b in thirds:
-        menu = [[x for x in ALPHABET if x != default[i]] if a <= i < b else [] for i in range(L)]
+    for a, b in thirds[:parts]:
+        menu = [[x for x in symbols if x != default[i]] if a <= i < b else [] for i in range(L)]
         out.append(
             {
                 "system": system,
@@ -843,7 +915,7 @@ def _x_long_tasks(system):
                 "menu": menu,
                 "menu_per_pos": True,
                 "k": 1,
-                "label": "%s|long-default|L%d|k1|dev@%d-%d" % (system, L, a, b - 1),
+                "label": "%s|%s%s|L%d|k1|dev@%d-%d" % (system, fam, ("@" + scale) if scale else "", L, a, b - 1),
                 "cost": UNIT[system] * 3 * (b - a) * (L - (a + b) // 2),
                 "validate_every": 97,
             }
@@ -857,6 +929,11 @@ def _extension_tasks(tier):
         out.extend(_x_dfs_tasks(system, fam, params, alpha, feed, dq if tier == "quick" else dt))
     out.extend(_x_long_tasks("CUSUM"))
     out.extend(_x_long_tasks("PageHinkley"))
+    for scale in SCALES:
+        # quick: at the large unit only the first third of the deviation positions (they move every later epoch)
+        parts = 1 if (tier == "quick" and scale == "1e8") else 3
+        out.extend(_x_long_tasks("CUSUM", scale, parts))
+        out.extend(_x_long_tasks("PageHinkley", scale, parts))
     return out
 
 
@@ -942,6 +1019,9 @@ def describe(tier):
                 ],
                 "long": "CUSUM() and PageHinkley() with default parameters on a level-shift history of length 160 over "
                 "{-2,0,1,4}, every history with <= 1 replaced position",
+                "long_scale": "the same two histories with every value multiplied by 1e-9 and by 1e8 (CUSUM(): default "
+                "parameters; PageHinkley(delta=0.01*unit)): every history with <= 1 replaced position"
+                + (" (unit 1e8: replaced positions 0-53 only)" if tier == "quick" else ""),
             },
             "deviation_mode": {
                 "L": 40,
@@ -978,5 +1058,10 @@ def describe(tier):
             "(round-3 families only; the legacy families enforce the ValueError)",
             "negative delta, negative thresholds, CUSUM(target=None, burn_in=0), float16 / boolean input are not explored "
             "(not documented as legal); the deviation-free L=160 history is executed once per third of the positions",
+            "scale families (1e-9 ... 1e8): no absolute tolerance is used anywhere - the noise floor is 64*L*eps*max|x| of "
+            "the family's own alphabet, change_scores must be the number fed, and in the power-of-two families (2^-30, "
+            "2^27) float arithmetic is exact, so ties are enforced there as on the small integers",
+            "manual reset() calls between updates, CUSUM(target given, sd_hat=None) / (target=None, sd_hat given) and "
+            "negative slack are not explored: the property defines no expected behaviour for them",
         ],
     }
